@@ -686,3 +686,45 @@ pub fn stage_table() -> Vec<(usize, String, bool, bool)> {
         })
         .collect()
 }
+
+// ---------------------------------------------------------------------------------------------
+// Side metadata layout of a created plan (C24); Immix block/line state bytes (C34)
+// ---------------------------------------------------------------------------------------------
+
+/// The side metadata context of one space of a created plan.
+#[derive(Clone, Debug)]
+pub struct SpaceSideMetadata {
+    /// Space name.
+    pub name: String,
+    /// The global specs of the space's `SideMetadataContext`.
+    pub global: Vec<SideMetadataSpec>,
+    /// The local (policy-specific) specs of the space's `SideMetadataContext`.
+    pub local: Vec<SideMetadataSpec>,
+}
+
+/// For every space of the plan of `mmtk` (in `Plan::for_each_space` order): the
+/// `SideMetadataContext` the space maps and accesses.
+pub fn space_side_metadata<VM: VMBinding>(mmtk: &crate::MMTK<VM>) -> Vec<SpaceSideMetadata> {
+    let mut out = vec![];
+    mmtk.get_plan().for_each_space(&mut |space| {
+        let (global, local) = space.verif_side_metadata_specs();
+        out.push(SpaceSideMetadata {
+            name: space.get_name().to_string(),
+            global: global.to_vec(),
+            local: local.to_vec(),
+        });
+    });
+    out
+}
+
+/// The reserved (quarantined) side metadata address range `(base, bytes)`.  Only valid after
+/// side metadata was initialized (`MMTK::new` or [`initialize_side_metadata`]).
+pub fn side_metadata_reserved_range() -> (Address, usize) {
+    (
+        crate::util::metadata::side_metadata::global_side_metadata_base_address(),
+        crate::util::metadata::side_metadata::side_metadata_reserved_bytes(),
+    )
+}
+
+pub use crate::policy::immix::block::{Block as ImmixBlock, BlockState as ImmixBlockState};
+pub use crate::policy::immix::line::Line as ImmixLine;
